@@ -254,4 +254,34 @@ def docStyle : StyleArg → Bool
   | .styleObj true => true
   | _ => false
 
+/-! ### the values of `Collection.children` / `Collection.collections` -/
+
+/-- objects that can be children together: none is the collection itself or one that contains it, none occurs twice -/
+def goodObjs (os : List (Nat × ObjKind)) : Bool :=
+  !(os.any fun o => o.2 == .selfOrAncestor) && !hasDup (os.map (·.1))
+
+/-- a flat list of Magpylib objects -/
+def objList (xs : List CollVal) : Option (List (Nat × ObjKind)) :=
+  if xs.all (fun x => (asObj x).isSome) then some (xs.filterMap asObj) else Option.none
+
+def keepGood (os : List (Nat × ObjKind)) : Option (List (Nat × ObjKind)) := if goodObjs os then some os else Option.none
+
+/-- documented: "children: sources, `Sensor` or `Collection` objects — an ordered list of all children in the collection": a list / tuple of
+Magpylib objects (also wrapped in one more list, as `add` takes it), or a single object, that can be children together; `some os`: the children
+the assignment produces -/
+def docChildren : CollVal → Option (List (Nat × ObjKind))
+  | .seq [.seq ys] => (objList ys).bind keepGood
+  | .seq xs => (objList xs).bind keepGood
+  | .obj i k => keepGood [(i, k)]
+  | .junk => Option.none
+
+def isCollectionObj : CollVal → Bool
+  | .obj _ k => k == .collection || k == .selfOrAncestor
+  | _ => false
+
+/-- documented: "collections: `Collection` objects — an ordered list of all collection objects in the collection": a (possibly nested) list all of
+whose entries are Collection objects that can be children together -/
+def docCollections (v : CollVal) : Option (List (Nat × ObjKind)) :=
+  if (leavesC v).all isCollectionObj then keepGood ((leavesC v).filterMap asObj) else Option.none
+
 end MagpyVerif.Valid
